@@ -31,7 +31,7 @@ func init() {
 		Directed:   c02Directed,
 		Run:        c02Run,
 		MustHit:    []string{"clock=nb", "clock=nb-1ns", "clock=na", "clock=na+1ns", "signer=untrusted", "signer=trusted-cert-foreign-key", "signer=tampered", "signer=twin-cert-not-in-store", "no_keyinfo", "store=0", "store=1", "store>=2", "store_error", "idp_key_rollover", "cert_retired", "store_replaced", "sp_restart", "kind=both-badR", "same_issuer_serial"},
-		RandomRuns: map[string]int{"quick": 1200, "thorough": 60000},
+		RandomRuns: map[string]int{"quick": 6000, "thorough": 60000},
 		Assumptions: []string{"X.509 validity is inclusive at both ends (NotBefore <= now <= NotAfter), certificate identity is DER equality",
 			"the SP certificate chain is never checked by the library, so stub certificates are issued by a stub CA"},
 	})
